@@ -36,6 +36,7 @@ class Baton:
         self.finished: set[int] = set()
         self.errors: dict[int, BaseException] = {}
         self.ids: dict[int, int] = {}      # thread ident -> worker id
+        self.every_statement = False       # park before EVERY statement outside a transaction (reads too)
 
     def me(self):
         return self.ids.get(threading.get_ident())
@@ -75,14 +76,19 @@ class Baton:
 
     def on_execute(self, conn, sql, args):
         wid = self.me()
-        if wid is not None and not conn.in_transaction and DML.match(sql):
+        if wid is not None and not conn.in_transaction and (self.every_statement or DML.match(sql)):
             self.park(wid, sql.strip()[:30])
         return None
 
 
 # ----- scenario preparation ---------------------------------------------------------------------------
-def scenario_program(join: str, nup: int) -> dict:
+def scenario_program(join: str, nup: int, lazy: bool = False) -> dict:
     S, P = PR.S, PR.P
+    if lazy:    # the join stage's task is built by the stage's builder at planning time
+        ups = ["b", "c", "e"][:nup]
+        d = S("d", ups, join=join, thr=2 if join == "N_OF_M" else 0)
+        d["lazy"] = True
+        return P(f"race_{join}_{nup}_lazy", [S("a")] + [S(u, ["a"]) for u in ups] + [d])
     if join in ("MUTEX", "CHOICE"):
         sibs = ["b", "c", "e"][:nup]
         kw = {"mutex": "m"} if join == "MUTEX" else {"choice": "g"}
@@ -127,8 +133,9 @@ def init_st(state: dict, ups: list[str]) -> str:
     def row(r):
         s = state["st"][r]
         tks = [v for k, v in state["tk"].items() if k.startswith(r + ".")]
-        return '[status |-> "%s", ver |-> %d, fired |-> %s, cb |-> %s, tver |-> %d]' % (
-            s["status"], s["ver"], "TRUE" if s["fired"] else "FALSE", PR.tla_value(set(s["cb"])), tks[0]["ver"])
+        return '[status |-> "%s", ver |-> %d, fired |-> %s, cb |-> %s, tver |-> %d, nt |-> %d]' % (
+            s["status"], s["ver"], "TRUE" if s["fired"] else "FALSE", PR.tla_value(set(s["cb"])),
+            tks[0]["ver"] if tks else 0, len(tks))
     refs = ups + (["d"] if "d" in state["st"] else [])
     return "(" + " @@ ".join('"%s" :> %s' % (r, row(r)) for r in refs) + ")"
 
@@ -262,9 +269,10 @@ def project(raw, refs: list[str], msg_of: dict[int, int]) -> dict:
         sid[r["id"]] = r["ref_id"]
         if r["ref_id"] in refs:
             ctx = json.loads(r["context"] or "{}")
-            t = raw.execute("SELECT version FROM task_executions WHERE stage_id = ? ORDER BY id", (r["id"],)).fetchone()
+            ts = raw.execute("SELECT version FROM task_executions WHERE stage_id = ? ORDER BY id", (r["id"],)).fetchall()
             st[r["ref_id"]] = {"status": r["status"], "ver": r["version"], "fired": bool(ctx.get("_join_fired", False)),
-                               "cb": sorted(ctx.get("_completed_branches", [])), "tver": t["version"]}
+                               "cb": sorted(ctx.get("_completed_branches", [])), "tver": ts[0]["version"] if ts else 0,
+                               "nt": len(ts)}
     qids = {r["id"] for r in raw.execute("SELECT id FROM queue_messages")}
     done = {int(r["message_id"]) for r in raw.execute("SELECT message_id FROM processed_messages")}
     new = sorted([r["message_type"], sid.get(json.loads(r["payload"]).get("stage_id"), "")]
@@ -275,7 +283,8 @@ def project(raw, refs: list[str], msg_of: dict[int, int]) -> dict:
 
 
 def model_view(s: dict) -> dict:
-    st = {k: {"status": v["status"], "ver": v["ver"], "fired": v["fired"], "cb": sorted(v["cb"]), "tver": v["tver"]}
+    st = {k: {"status": v["status"], "ver": v["ver"], "fired": v["fired"], "cb": sorted(v["cb"]), "tver": v["tver"],
+              "nt": v["nt"]}
           for k, v in s["st"].items()}
     claims = s.get("claims") or {}
     if isinstance(claims, list):
@@ -286,8 +295,10 @@ def model_view(s: dict) -> dict:
 
 
 def replay_path(prog: dict, basedb: str, held: list[dict], workers: list[int], ups: list[str], scenario: str,
-                path: list[str], tag: str) -> dict | None:
-    """returns None if the real engine followed the specification at every step, else a mismatch record"""
+                path: list[str], tag: str, random_seed: int | None = None, terminal: list[dict] | None = None) -> dict | None:
+    """returns None if the real engine followed the specification at every step, else a mismatch record.
+    With random_seed: the workers are preempted at EVERY SQL statement by a seeded random scheduler and only the
+    final state is compared - it must be one of the terminal states of the specification (`terminal`)."""
     from stabilize import QueueProcessor, SqliteQueue, SqliteWorkflowStore, TaskRegistry
     from stabilize.queue.processor.config import QueueProcessorConfig
     from .vtask import VerifTask
@@ -303,6 +314,9 @@ def replay_path(prog: dict, basedb: str, held: list[dict], workers: list[int], u
     Hooks.on_execute = baton.on_execute
     raw = core.raw_connect(db)
     try:
+        from .programs import register_builder
+
+        register_builder(prog)
         store = SqliteWorkflowStore(cs, create_tables=False)
         queue = SqliteQueue(cs)
         reg = TaskRegistry()
@@ -344,6 +358,35 @@ def replay_path(prog: dict, basedb: str, held: list[dict], workers: list[int], u
             baton.cv.wait_for(lambda: len(baton.parked) == len(workers), 10)
         states = [json.loads(s) for s in path]
         refs = list(states[0]["st"].keys())
+        if random_seed is not None:
+            baton.every_statement = True
+            rng = random.Random(random_seed)
+            sched = []
+            # PCT-style: strict priorities, d <= 3 priority-change points at random statement counts (a schedule with few
+            # preemptions at arbitrary statements), every 4th seed uniformly random instead
+            prio = list(workers)
+            rng.shuffle(prio)
+            uniform = random_seed % 4 == 0
+            changes = sorted(rng.randrange(1, 70) for _ in range(rng.randint(1, 3)))
+            for n in range(20000):
+                live = [w for w in prio if w not in baton.finished]
+                if not live:
+                    break
+                if changes and n >= changes[0]:
+                    changes.pop(0)
+                    prio.append(prio.pop(prio.index(live[0])))
+                    live = [w for w in prio if w not in baton.finished]
+                w = rng.choice(live) if uniform else live[0]
+                sched.append(w)
+                baton.step(w)
+            for t in threads:
+                t.join(5)
+            got = project(raw, refs, msg_of)
+            errs = {w: repr(e) for w, e in baton.errors.items()}
+            if got not in terminal or errs:
+                return {"step": -1, "worker": 0, "model_pc": "end", "thread": "finished", "want": {"any of": len(terminal)},
+                        "got": got, "error": str(errs), "schedule": sched[:200], "seed": random_seed}
+            return None
         for i in range(1, len(states)):
             w = mover(states[i - 1], states[i])
             res = baton.step(w)
@@ -380,13 +423,36 @@ def replay_path(prog: dict, basedb: str, held: list[dict], workers: list[int], u
 
 
 def _job(args):
-    prog, basedb, held, workers, ups, scenario, paths, tag = args
+    prog, basedb, held, workers, ups, scenario, paths, tag = args[:8]
+    seeds, terminal = (args[8], args[9]) if len(args) > 8 else ([], None)
     bad = []
     for p in paths:
         r = replay_path(prog, basedb, held, workers, ups, scenario, p, tag)
         if r is not None:
             bad.append(r)
-    return len(paths), bad
+    for sd in seeds:
+        r = replay_path(prog, basedb, held, workers, ups, scenario, paths0(terminal), tag, random_seed=sd, terminal=terminal["views"])
+        if r is not None:
+            bad.append(r)
+    return len(paths) + len(seeds), bad
+
+
+def paths0(terminal):
+    return [terminal["init"]]
+
+
+def terminal_views(edges: dict, init: str) -> list[dict]:
+    seen = set()
+    out = []
+    allstates = set(edges.keys()) | {t for ts in edges.values() for t in ts}
+    for s in allstates:
+        if not edges.get(s):
+            v = model_view(json.loads(s))
+            k = json.dumps(v, sort_keys=True)
+            if k not in seen:
+                seen.add(k)
+                out.append(v)
+    return out
 
 
 def component(rep: Reporter, tier: str, seed: int, which: str) -> dict:
@@ -404,6 +470,8 @@ def component(rep: Reporter, tier: str, seed: int, which: str) -> dict:
                 configs.append((join, 2, scen, [1, 2]))
         configs.append(("AND", 3, "A", [1, 2, 3]))
         configs.append(("N_OF_M", 3, "B", [1, 2, 3]))
+        configs.append(("AND", 2, "Z", [1, 2]))              # builder-built tasks: the zombie re-plan path races
+        configs.append(("DISCRIMINATOR", 2, "Z", [1, 2]))
         configs.append(("DISCRIMINATOR", 2, "C", [1, 2]))    # early branch's StartStage(d) vs the late branch's completion
         configs.append(("MULTI_MERGE", 2, "C", [1, 2]))
         if not quick:
@@ -421,7 +489,10 @@ def component(rep: Reporter, tier: str, seed: int, which: str) -> dict:
     mismatched = set()
     try:
         for (join, nup, scen, workers) in configs:
-            prog = scenario_program(join, nup)
+            lazy = scen == "Z"
+            if lazy:
+                scen = "A"
+            prog = scenario_program(join, nup, lazy)
             ups = ["b", "c", "e"][:nup]
             db, prep = prepare(prog, scen, base)
             held = prep["held"]
@@ -452,6 +523,14 @@ def component(rep: Reporter, tier: str, seed: int, which: str) -> dict:
             n = 12
             for i in range(0, len(paths), n):
                 jobs.append((prog, db, held, workers, ups, scen, paths[i:i + n], f"{join}{nup}{scen}"))
+            # statement-level preemption (reads too): seeded random schedules, the final state must be a terminal state
+            # of the specification
+            term = {"init": init, "views": terminal_views(edges, init)}
+            nrand = (120 if quick else 2000) if len(workers) == 2 else (40 if quick else 600)
+            seeds = [rng.randrange(1 << 30) for _ in range(nrand)]
+            for i in range(0, len(seeds), 10):
+                jobs.append((prog, db, held, workers, ups, scen, [], f"{join}{nup}{scen}r", seeds[i:i + 10], term))
+            info[-1]["statement_level_random_schedules"] = nrand
         with cf.ProcessPoolExecutor(max_workers=int(os.environ.get("VERIF_NPROC", "16")), mp_context=mp.get_context("spawn")) as ex:
             for (cnt, bad), job in zip(ex.map(_job, jobs), jobs):
                 replayed += cnt
